@@ -584,6 +584,14 @@ def _robust_gp_fit_(
                     s2 = s2[~idx_drop_out]
                 if tmp_gp.s2 is not None and tmp_gp.s2.size > 0:
                     tmp_gp.s2 = tmp_gp.s2[~idx_drop_out]
+                    # keep the GP's own training set aligned with its noise
+                    # vector: the slice sampler evaluates the likelihood on it
+                    if (
+                        tmp_gp.X is not None
+                        and tmp_gp.X.shape[0] == idx_drop_out.size
+                    ):
+                        tmp_gp.X = tmp_gp.X[~idx_drop_out]
+                        tmp_gp.y = tmp_gp.y[~idx_drop_out]
 
             # Retry with random sample prior
             old_hyp_gp = (
